@@ -172,15 +172,15 @@ func (c *Ctx) pointerFieldLookup(rule string) *ssa.Function {
 	var found []*ssa.Function
 	if w != nil {
 		seen := map[*ssa.Function]bool{}
-		core.EachInstr(w, func(i ssa.Instruction) {
-			if call, ok := i.(*ssa.Call); ok {
+		for _, fi := range c.familyInstrs(w) {
+			if call, ok := fi.I.(*ssa.Call); ok {
 				if callee := call.Call.StaticCallee(); callee != nil && c.P.InPkg(callee) && !seen[callee] &&
 					sigIs(callee.Signature, []func(types.Type) bool{tReflectValue, tString}, []func(types.Type) bool{tReflectValue}) {
 					seen[callee] = true
 					found = append(found, callee)
 				}
 			}
-		})
+		}
 	}
 	var f *ssa.Function
 	if len(found) == 1 {
